@@ -267,6 +267,12 @@ def _run_opt(task):
     for flag in ("-O", "-OO", "-Werror", "-bb", "-Xdev"):
         r = subprocess.run([sys.executable, "-B", flag, "-c", _OPT_SUB, REPO, str(task["seed"])], capture_output=True, text=True)
         if r.returncode != 0:
+            from vlib import optrun
+            if optrun.library_fault(r.stderr):
+                res.violation(Violation("generation_never_fails:library_unusable_under_interpreter_flag",
+                                        {"kind": "INIT", "pyflag": flag, "error": optrun.fault_line(r.stderr)},
+                                        "a sequence start", optrun.fault_line(r.stderr)))
+                return res
             raise HarnessError(f"python {flag} helper failed: {r.stderr[-800:]}")
         for kind, value, comps, back in json.loads(r.stdout.strip().splitlines()[-1]):
             case = {"kind": kind, "pyflag": flag, "value": value, "components": comps}
